@@ -3,6 +3,8 @@ import Firebolt.Generated.Skeleton
 import Firebolt.Expected.Skeleton
 import Firebolt.Generated.Source
 import Firebolt.Expected.Source
+import Firebolt.Generated.Closure
+import Firebolt.Expected.Closure
 /-!
 # C18 — A failed source is re-created and restarted; a finished source ends the run
 Theorems about `Model/Supervisor.lean` for every number of consecutive failures.
@@ -118,5 +120,9 @@ theorem skeleton_execute : Generated.execute = Expected.execute := by rfl
 /-! ### functions the model's assumptions rest on (construction, wiring, surrounding calls) are unchanged -/
 theorem source_withConfig : GeneratedSrc.withConfig = ExpectedSrc.withConfig := by rfl
 theorem source_instantiateSource : GeneratedSrc.instantiateSource = ExpectedSrc.instantiateSource := by rfl
+
+/-! ### influence closure: the pinned functions, and every function of the repository that writes a struct field or package
+variable they read, are unchanged (digests regenerated from /repo on every run; a difference names the functions) -/
+theorem closure_unchanged : GeneratedClo.C18 = ExpectedClo.C18 := by rfl
 
 end Firebolt.C18
